@@ -3,6 +3,7 @@ package main
 import (
 	"context"
 	"fmt"
+	"hash/crc32"
 	"io"
 	"math"
 	"math/rand"
@@ -56,6 +57,14 @@ func (m *measureWorld) vals(id int) rowVals {
 	if pick(4) == 0 {
 		v.fi = r.Int63() - r.Int63()
 	}
+	// every third behaviour: arithmetic progressions along the time axis of a series, with steps at the boundaries of
+	// the variable-length / delta encodings (consecutive rows of a series then differ by exactly the step)
+	if m.vmap%3 == 0 {
+		steps := []int64{64, -64, 63, 65, 128, -128, 127, 1 << 14, -(1 << 14), 1<<14 - 1, 1 << 21, 8192, 1}
+		st := steps[(m.vmap/3)%len(steps)]
+		v.fi = int64(m.vmap%7)*1000 + int64(m.tOf[id])*st
+		v.ff = float64(m.vmap%5) + float64(m.tOf[id])*float64(st)/4
+	}
 	if pick(4) == 0 {
 		v.ff = math.Float64frombits(r.Uint64())
 		for math.IsNaN(v.ff) || math.IsInf(v.ff, 0) {
@@ -82,6 +91,8 @@ type measureWorld struct {
 	res    *vlib.Result
 	pids   map[int]uint64 // spec part id -> real part id
 	seriesOf map[int]int   // row id -> series
+	tOf    map[int]int   // row id -> time slot
+	vmap   int
 	group  string
 	root   string
 	cfg    config
@@ -92,7 +103,19 @@ type measureWorld struct {
 func newMeasureWorld(srv *server, cfg config, group string, res *vlib.Result) *measureWorld {
 	now := time.Now().UTC()
 	base := time.Date(now.Year(), now.Month(), now.Day(), 1, 0, 0, 0, time.UTC)
-	return &measureWorld{srv: srv, cfg: cfg, group: group, res: res, seed: vlib.Seed(), base: base, pids: map[int]uint64{}, seriesOf: map[int]int{}}
+	return &measureWorld{srv: srv, cfg: cfg, group: group, res: res, seed: vlib.Seed(), base: base, pids: map[int]uint64{}, seriesOf: map[int]int{}, tOf: map[int]int{}}
+}
+
+// versionMaps are monotone embeddings of the model's versions 1..4 into int64 (signs and extremes included).
+var versionMaps = [][]int64{{0, 1, 2, 3, 4}, {0, 64, 128, 192, 256}, {0, -7, -1, 5, 9}, {0, math.MinInt64, -1, 0, math.MaxInt64}, {0, -4, -3, -2, -1},
+	{0, 1700000000000000000, 1700000000000000001, 1700000000000000002, math.MaxInt64}}
+
+func (m *measureWorld) version(v int) int64 {
+	vm := versionMaps[m.vmap%len(versionMaps)]
+	if v < len(vm) {
+		return vm[v]
+	}
+	return int64(v)
 }
 
 func (m *measureWorld) ts(t int) time.Time { return m.base.Add(time.Duration(t) * time.Minute) }
@@ -238,6 +261,7 @@ func (m *measureWorld) rowTags(id int) (a int64, b string, arr []int64) {
 func (m *measureWorld) dataPoint(row map[string]any) *measurev1.DataPointValue {
 	id := vlib.Int(row, "id")
 	m.seriesOf[id] = vlib.Int(row, "s")
+	m.tOf[id] = vlib.Int(row, "t")
 	v := m.vals(id)
 	a, b, arr := m.rowTags(id)
 	ps := tagStr(v.ps)
@@ -250,7 +274,7 @@ func (m *measureWorld) dataPoint(row map[string]any) *measurev1.DataPointValue {
 	}
 	return &measurev1.DataPointValue{
 		Timestamp: timestamppb.New(when),
-		Version:   int64(vlib.Int(row, "v")),
+		Version:   m.version(vlib.Int(row, "v")),
 		TagFamilies: []*modelv1.TagFamilyForWrite{{Tags: []*modelv1.TagValue{
 			tagStr(m.seriesName(vlib.Int(row, "s"))), tagInt(int64(id)), tagInt(a), tagStr(b),
 			{Value: &modelv1.TagValue_IntArray{IntArray: &modelv1.IntArray{Value: arr}}},
@@ -315,6 +339,11 @@ func sortedRows(l []any) []map[string]any {
 }
 
 func (m *measureWorld) replay(ctx context.Context, b vlib.Behaviour) {
+	// the version embedding is chosen per behaviour from its first step (stable under truncation of the behaviour,
+	// which is how a violation is re-executed) and the seed
+	if len(b.States) > 1 {
+		m.vmap = int(crc32.ChecksumIEEE([]byte(vlib.Canon(b.States[1]["last"]))))%1000 + int(vlib.Seed())
+	}
 	for i, st := range b.States {
 		if i == 0 {
 			continue
@@ -470,8 +499,8 @@ func (m *measureWorld) checkRow(dp *measurev1.DataPoint, row map[string]any) (st
 	if got := dp.Timestamp.AsTime(); !got.Equal(m.ts(vlib.Int(row, "t"))) {
 		return "timestamp", fmt.Sprintf("timestamp %s, written %s", got, m.ts(vlib.Int(row, "t")))
 	}
-	if m.cfg.Versioned && dp.Version != int64(vlib.Int(row, "v")) {
-		return "version", fmt.Sprintf("version %d, written %d", dp.Version, vlib.Int(row, "v"))
+	if m.cfg.Versioned && dp.Version != m.version(vlib.Int(row, "v")) {
+		return "version", fmt.Sprintf("version %d, written %d", dp.Version, m.version(vlib.Int(row, "v")))
 	}
 	if t := findTag(dp, "svc"); t.GetStr().GetValue() != m.seriesName(vlib.Int(row, "s")) {
 		return "entity-tag", fmt.Sprintf("svc=%q, written %q", t.GetStr().GetValue(), m.seriesName(vlib.Int(row, "s")))
